@@ -241,6 +241,9 @@ func TypeName(t types.Type) string {
 		}
 		return o.Name()
 	}
+	if _, ok := t.Underlying().(*types.Struct); ok {
+		return "struct" // anonymous struct: the field name identifies it
+	}
 	return t.String()
 }
 
